@@ -42,6 +42,8 @@ ASSUMPTIONS = [
     "for built-in string samplers with metrics given by name only shape, reproducibility and CI-of-own-replicates (same seed) are asserted; rows are tied to samples through the callback seams",
     "hash-seed dependent nondeterminism is reported by the runner's determinism legs as HARNESS-ERROR nondeterminism (exit 2), which for C14 is to be read as its reproducibility clause failing",
 ]
+FLAKY_INVARIANTS = {"C14.reproducible"}
+NONDETERMINISM_IS_VIOLATION = True
 PROBES = ["identity_sampler", "counting_sampler", "recording_builtin", "builtin_string", "named_metric", "callable_metric",
           "group_source", "nan_replicate", "callback_raise_fired", "callback_reenter_fired", "callback_rng_fired", "interrupt_fired",
           "z0_infinite", "vector_alpha", "ci_checked", "rows_checked"]
@@ -510,7 +512,7 @@ def execute(scn, ctx):
                             if not np.array_equal(ci, point, equal_nan=True):
                                 bad("identity_collapse", f"identity sampler: interval {ci.tolist()} != point estimate {th.tolist()}")
         # ---- fixed seed => same result (skip when an interrupt is planned: counted on a twin)
-        if not has_intr and res["ok"]:
+        if not has_intr and res["ok"] and not control_fault:
             after = seam.get_state()
             seam.set_state(state0)
             call2, _, _ = make(src)
@@ -538,7 +540,7 @@ def execute(scn, ctx):
                 bad("raises", f"bootstrap_metric({mname}) raised {type(e).__name__}: {e} although bootstrap_ci succeeded from the same seed")
             seam.set_state(after)
         trace.append([step, kind, tags, sorted(set(fired)), outcome,
-                      M.digest(M.canon(res["value"]))[:16] if res["ok"] else None, res["draws"]])
+                      M.digest(M.canon(res["value"]))[:16] if res["ok"] and not control_fault else None, res["draws"]])
         sig.append(f"{kind}|{mname}|{s_kind}|{sspec.get('inner', sspec).get('sampling_method', '')}|{sspec.get('inner', sspec).get('stratified_sampling', '')}|"
                    f"{cfg['bootstrap_method']}|{','.join(sorted(set(fired)))}|{outcome}")
         states.add(f"{'G' if is_group else 'S'}|{mname}|{s_kind}|{cfg['bootstrap_method']}|{kind}")
